@@ -97,6 +97,14 @@ def build_traces(path, tier, seed):
             shift = shift * sc
         arg = x if i % 4 else x.tolist()
         argi = x.astype(np.int64) if (i % 5 == 1 and i % 2) else arg
+        if rng.integers(8) == 0:
+            # counts in a narrow integer dtype whose differences leave the dtype (int8 up to 120, int16 up to 30000, int32 up to 2e9)
+            dt_, top = [(np.int8, 120), (np.int16, 30000), (np.int32, 2.0e9)][int(rng.integers(3))]
+            argi = np.round(x / (np.max(np.abs(x)) + 1e-300) * top).astype(dt_)
+            if np.all(argi == argi[0]):
+                argi[-1] = argi[0] - 1 if argi[0] > 0 else argi[0] + 1
+            x = np.asarray(argi, dtype=float)
+            shift = float(np.round(shift)) if abs(shift) < top / 4 else 3.0
         d = pc.determine_peaks_only_delta_series(argi)
         p = pc.determine_pseudo_cyclic_peak_only_series(argi)
         dsh = pc.determine_peaks_only_delta_series(x + shift)
